@@ -8,12 +8,14 @@ All(s, P(_)) == \A k \in DOMAIN s : P(s[k])
 RECURSIVE SumCol(_, _)
 SumCol(inputs, v) == IF Len(inputs) = 0 THEN 0
                      ELSE SumSeq([k \in DOMAIN Head(inputs) |-> Head(inputs)[k][v]]) + SumCol(Tail(inputs), v)
-AllFit(recs, bits) == \A k \in DOMAIN recs : \A c \in 3..Len(recs[k]) : Fits(recs[k][c], bits)
+AllFit(recs, bits, unsigned) ==
+  \A k \in DOMAIN recs : \A c \in 3..Len(recs[k]) :
+     IF unsigned THEN FitsUnsigned(recs[k][c], bits) ELSE Fits(recs[k][c], bits)
 
 (* mg.merge: merge_coolers / cooler merge on real files; flat or nested *)
 MergeClauses(e) ==
   LET want == MergeOf(e.case.inputs, e.case.aggs)
-      fits == AllFit(want, e.case.bits)
+      fits == AllFit(want, e.case.bits, e.case.unsigned)
   IN
   IF e.obs.err # ""
   THEN << <<"neverSilentlyDifferent:errorOnlyIfUnfit", ~fits>> >>      \* an error is right only when a value does not fit
